@@ -53,6 +53,7 @@ def run(chk):
     chk.rule("C09.O10", "pymath.NAME forwards its arguments, in order, to the math function of the same name", 30)
     chk.attempt("O10", lambda: pymath_forwarding(chk, P))
     chk.attempt("O1", lambda: modifiers(chk, P))
+    chk.attempt("O1r", lambda: modifiers_repeated(chk, P))
     chk.attempt("O2", lambda: trans_value(chk, P))
     chk.attempt("O3", lambda: custom_forms(chk, P))
     chk.attempt("O4", lambda: signatures(chk, P))
@@ -93,6 +94,30 @@ def modifiers(chk, P):
         v = I.num(I.call(res, [Num(r)], {}))
         chk.ob("C09.O1", "atsim.potentials.%s(a, b)(r) is the pointwise %s" % (name, {"plus": "sum", "product": "product", "pow": "power a**b"}[name]),
                ep.equal(v, w)[0], site=fi.site(), found=v, expect=w, key="C09.O1|api|%s" % name)
+
+
+def modifiers_repeated(chk, P):
+    r = ep.sym("r")
+    f = [ep.app(("f", i), [r]) for i in range(3)]
+    # the same sub-definition given twice is two arguments (sum(f, f) = 2 f, product(f, f) = f^2), also when not adjacent
+    mod = P.module("atsim.potentials.config._common")
+    for name in ("sum", "product", "pow"):
+        fi = P.func(MODS, name)
+        I = F.make_interp(P)
+        pfi = I.module_global(mod, "PotentialFormInstanceTuple")
+        same = lambda: I.call(pfi, [Const("as.polynomial"), ListV([Num(ep.const(0)), Num(ep.const(1))], "list"), NONE, NONE], {})
+        other = I.call(pfi, [Const("as.constant"), ListV([Num(ep.const(2))], "list"), NONE, NONE], {})
+        b = Builder()
+        try:
+            res = I.run(fi, [ListV([same(), other, same()], "list"), PyObjV(b)])
+            v = I.num(I.call(res, [Num(r)], {}))
+            w = {"sum": f[0] + f[1] + f[2], "product": f[0] * f[1] * f[2], "pow": ep.pow_(ep.pow_(f[0], f[1]), f[2])}[name]
+            ok = ep.equal(v, w)[0] and len(b.seen) == 3
+            found = v
+        except RaiseSignal as e:
+            ok, found = False, e.exc
+        chk.ob("C09.O1", "%s(g, h, g) with the definition g written twice keeps three arguments" % name, ok, site=fi.site(), found=found,
+               expect="three potentials reduced in order", key="C09.O1|%s|repeated-argument" % name)
 
 
 def trans_value(chk, P):
